@@ -349,7 +349,87 @@ def body(ctx):
     return (shape, K)
 
 
+def body_two_loops(ctx):
+    """Two DoWhile documents advancing independently (a symbolic schedule of which loop iterates next): the state,
+    instances and placeholders of one loop must not depend on how far the other one is."""
+    same_names = ctx.flag('same_document_imported_twice')
+
+    def dw(tag):
+        tag = '' if same_names else tag
+        return {'type': 'DoWhile', 'inputBindings': {'number': {'type': 'output'}}, 'condition': 'stop%s/next:output' % tag,
+                'loopBindings': {'number': 'stop%s:output' % tag},
+                'components': [{'name': 'work' + tag, 'command': {'executable': 'echo', 'arguments': 'number:output'}, 'references': ['number:output']},
+                               {'name': 'stop' + tag, 'command': {'executable': 'echo', 'arguments': 'work%s:output' % tag},
+                                'references': ['work%s:output' % tag]}]}
+    sfx = {'A': '' if same_names else 'A', 'B': '' if same_names else 'B'}
+    main = {'components': [
+        {'stage': 0, 'name': 'source', 'command': {'executable': 'echo', 'arguments': '0'}},
+        {'stage': 1, '$import': 'dowhileA.yaml', 'name': 'loopA', 'bindings': {'number': 'stage0.source:output'}},
+        {'stage': 2, '$import': 'dowhileB.yaml', 'name': 'loopB', 'bindings': {'number': 'stage0.source:output'}},
+        {'stage': 3, 'name': 'report', 'command': {'executable': 'echo', 'arguments': 'stage1.work%s:ref stage2.work%s:ref' % (sfx['A'], sfx['B'])},
+         'references': ['stage1.work%s:ref' % sfx['A'], 'stage2.work%s:ref' % sfx['B']]}]}
+    d = tempfile.mkdtemp(prefix='verif-c05-')
+    try:
+        os.makedirs(os.path.join(d, 'conf'))
+        for tag in 'AB':
+            with open(os.path.join(d, 'conf', 'dowhile%s.yaml' % tag), 'w') as f:
+                yaml.safe_dump(dw(tag), f)
+        with open(os.path.join(d, 'conf', 'flowir_package.yaml'), 'w') as f:
+            yaml.safe_dump(main, f)
+        pkg = storage.ExperimentPackage.packageFromLocation(d)
+        g = graph.WorkflowGraph.graphFromPackage(pkg, primitive=False, createInstanceConfiguration=False)
+    finally:
+        shutil.rmtree(d, ignore_errors=True)
+    g.rootStorage = _Storage()
+    steps = ctx.concretize(ctx.int('steps', 1, TWO_LOOP_STEPS))
+    k = {'A': 0, 'B': 0}
+    stage = {'A': 1, 'B': 2}
+    schedule = []
+    for step in range(steps + 1):
+        if step > 0:
+            tag = ctx.choice('advance%d' % step, ['A', 'B'])
+            schedule.append(tag)
+            name = 'stage%d.loop%s' % (stage[tag], tag)
+            entry = g._documents[FlowIR.LabelDoWhile][name]
+            # exactly what Controller._instantiate_next_dowhile_iteration does: next = currentIteration + 1
+            nxt = entry['state']['currentIteration'] + 1
+            try:
+                new = g.instantiate_dowhile_next_iteration(entry['document'], nxt, False)
+                err = None
+            except Exception as e:
+                new, err = [], e
+            ctx.check(err is None, 'the next iteration of one loop can be instantiated whatever the other loop has done', (schedule, repr(err)[:300]))
+            k[tag] += 1
+            ctx.check(sorted(new) == sorted('stage%d.%d#%s%s' % (stage[tag], k[tag], c, sfx[tag]) for c in ('work', 'stop')),
+                      'iteration k adds exactly one new instance of every looped component', (schedule, new))
+        want = {'stage0.source', 'stage3.report'}
+        for tag in 'AB':
+            want |= {'stage%d.%d#%s%s' % (stage[tag], i, c, sfx[tag]) for c in ('work', 'stop') for i in range(k[tag] + 1)}
+        nodes = set(g.graph.nodes)
+        ctx.check(nodes == want, 'the workflow contains exactly instances 0..k of every looped component', (schedule, sorted(nodes ^ want)))
+        for tag in 'AB':
+            st = g._documents[FlowIR.LabelDoWhile]['stage%d.loop%s' % (stage[tag], tag)]['state']
+            ctx.check(st['currentIteration'] == k[tag], 'current iteration is k', (schedule, tag, dict(k), st))
+            ctx.check(st['currentCondition'] == 'stage%d.%d#stop%s/next:output' % (stage[tag], k[tag], sfx[tag]),
+                      'current condition is the one produced by iteration k', (schedule, tag, dict(k), st))
+            ph = g._placeholders['stage%d.work%s' % (stage[tag], sfx[tag])]
+            ctx.check(ph['latest'] == 'stage%d.%d#work%s' % (stage[tag], k[tag], sfx[tag]), 'latest instance is the numerically highest iteration',
+                      (schedule, tag, ph['latest']))
+            for i in range(1, k[tag] + 1):
+                wp = set(g.graph.predecessors('stage%d.%d#work%s' % (stage[tag], i, sfx[tag])))
+                ctx.check(wp == {'stage%d.%d#stop%s' % (stage[tag], i - 1, sfx[tag])},
+                          'instance i takes its loop-carried input from instance i-1, other inputs from the original bindings', (schedule, tag, i, sorted(wp)))
+        if k['A'] != k['B'] and min(k.values()) >= 1:
+            ctx.witness('two_loops_at_different_iterations')
+    return (tuple(schedule), same_names)
+
+
+TWO_LOOP_STEPS = 5
+
+
 def factory(param):
+    if param.get('name') == 'two-loops':
+        return body_two_loops
     return body
 
 
@@ -373,20 +453,24 @@ def main(tier, seed, only=None):
     rep.bounds = {'E3': 'iteration numbers 0 <= i < j <= 999 as decimal strings, component names add / a.b / x-1; 4 sort sites',
                   'E1': 'iterations k = 0..K checked after every step, K in 11..12 (quick) / 1..12 (thorough), document shapes: loop binding yes/no, loop over 1 or 2 stages, '
                         'extra independent looped component (named with the condition producer as prefix), condition produced by either component, binding used twice in the arguments, a component using both the loop-carried binding and its current producer'}
-    rep.outside = ['controller-driven instantiation under concurrency', 'nested loops', 'replication inside loops beyond replicate: 1',
+    rep.bounds['two loops'] = 'two DoWhile documents in different stages advanced by every schedule of up to 5 (thorough 8) steps, each step instantiating currentIteration + 1 of the chosen loop'
+    rep.outside = ['controller-driven instantiation under concurrency', 'nested loops', 'two loops sharing component or condition names', 'replication inside loops beyond replicate: 1',
                    'more than 12 iterations on the real graph (ordering for up to 999 is covered by the lemmas)']
     rep.assumptions = ['rootStorage replaced by a stub mapping (stage, name) to a path', 'package written to a scratch directory '
                        '(removed after loading); createInstanceConfiguration=False']
     rep.explanation = ('E3: sort keys lifted from the AST of the real functions, order-preservation over symbolic iteration numbers decided '
                        'by z3 (strings+LIA) and cross-checked by cvc5; E1: bounded symbolic execution (symx/z3) of the real graph over symbolic '
                        'document shapes and iteration count')
-    rep.required_witnesses = ['ten_or_more_iterations', 'loop_carried_input_checked', 'binding_and_current_producer_checked']
+    rep.required_witnesses = ['ten_or_more_iterations', 'loop_carried_input_checked', 'binding_and_current_producer_checked',
+                              'two_loops_at_different_iterations']
     if not only or 'lemmas' in only:
         ordering_lemmas(rep, tier)
     if not only or 'graph' in only:
-        global KMIN
+        global KMIN, TWO_LOOP_STEPS
         KMIN = 11 if tier == 'quick' else 1
-        s = explore_parallel('histories', factory, [{'name': 'dowhile'}], signature=signature, seed=seed, chunk=4, validate=False)
+        TWO_LOOP_STEPS = 5 if tier == 'quick' else 8
+        s = explore_parallel('histories', factory, [{'name': 'dowhile'}, {'name': 'two-loops'}], signature=signature, seed=seed, chunk=4,
+                             validate=False)
         rep.add(s)
     else:
         rep.required_witnesses = []
